@@ -110,7 +110,7 @@ def cases(ctx, oracle_only=False):
 
 
 def run(ctx, oracle_only=False):
-    ctx.rule = RULE + WIDE_RULE + LARGE_RULE + SHARED_RULE
+    ctx.rule = RULE + WIDE_RULE + LARGE_RULE + SHARED_RULE + IMAGE_RULE
     cs = cases(ctx)
     ops, impls = [], []
     for kind, aj, arg in cs:
@@ -142,6 +142,7 @@ def run(ctx, oracle_only=False):
         run_wide(ctx, oracle_only=True)
         run_large(ctx, oracle_only=True)
         run_shared(ctx, oracle_only=True)
+        run_image(ctx, oracle_only=True)
         return
     models = ctx.lean.run(ops)
     for inp, r, m in zip(ops, impls, models):
@@ -149,6 +150,7 @@ def run(ctx, oracle_only=False):
     run_wide(ctx)
     run_large(ctx)
     run_shared(ctx)
+    run_image(ctx)
 
 
 # =============================================================================================== widened index domain
@@ -438,6 +440,105 @@ def run_shared(ctx, oracle_only=False):
         for si, st, exp, dead, r in ran:
             ops.append({"op": "delete", "a": exp, "idx": list(dead)})
             impls.append(_norm_err(r))
+    if oracle_only:
+        return
+    models = ctx.lean.run(ops)
+    for op, r, m in zip(ops, impls, models):
+        ctx.compare(op["op"], op, r, _norm_err(m))
+
+
+# =============================================================================================== terms through the cell boundary
+
+IMAGE_RULE = (" Terms through the cell boundary (stream 'image'): periodic structures of 1-6 atoms (thorough: up to 8) in which "
+              "some bonds / angles / dihedrals / impropers name one atom more than once (an atom bonded to its own periodic "
+              "image (i, i), an angle i - j - i', a dihedral / improper that comes back to an atom already on it; every pattern "
+              "of coincidences, also in structures with fewer atoms than the term has slots) among ordinary terms, with types, "
+              "coefficient tables and extra columns; EVERY non-empty subset (random listing order, 25% negative spellings) and "
+              "every pop for the small ones, random subsets otherwise. Same oracle (a term survives iff none of its atoms was "
+              "deleted, whatever the multiplicity of an atom in it); model compared as well. Counted: image:survivor = deletions "
+              "that leave a term with a repeated atom untouched.")
+
+
+def image_structure(rng, n):
+    """a periodic structure where, for each term kind present, some terms repeat an atom (ground truth needs nothing
+    special: a term is a tuple of atom positions, distinct or not)"""
+    aj = gen.rand_atoms(rng, n=n, cell=True, term_density=rng.randint(1, 3))
+    tag = 0
+    chosen = [k for k in gen.KINDS if rng.random() < 0.6] or [rng.choice(gen.KINDS)]
+    for k in chosen:
+        ar = gen.ARITY[k]
+        terms = aj["terms"][k]
+        xl = aj["xlabels"][k]
+        # type ids: inside the coefficient table when the kind has one, else the ids in use (or new ones)
+        ntk = len(aj["types"][k]) or max([t["ty"] for t in terms], default=-1) + 1 or rng.randint(1, 2)
+        fresh = []
+        for _ in range(rng.randint(1, 3)):
+            # a tuple over a pool of fewer distinct atoms than slots: at least one atom appears twice
+            pool = rng.sample(range(n), rng.randint(1, min(n, ar - 1)))
+            tup = pool + [rng.choice(pool) for _ in range(ar - len(pool))]
+            rng.shuffle(tup)
+            tag += 1
+            fresh.append({"a": tup, "ty": rng.randrange(ntk), "x": ["%si%d%s" % (k[0], tag, l[-1]) for l in xl]})
+        for t in fresh:      # anywhere among the ordinary terms
+            terms.insert(rng.randint(0, len(terms)), t)
+    return aj
+
+
+def _repeats(t):
+    return len(set(t["a"])) < len(t["a"])
+
+
+def image_cases(ctx):
+    rng = ctx.rng
+    out = []
+    for _ in range(ctx.n(14, 60)):
+        n = rng.randint(1, ctx.n(5, 6))
+        aj = image_structure(rng, n)
+        for r in range(1, n + 1):
+            for idx in itertools.combinations(range(n), r):
+                idx = list(idx)
+                rng.shuffle(idx)
+                if rng.random() < 0.25:
+                    idx = respell(rng, idx, n)
+                out.append(("delete", aj, idx))
+        for i in [None] + list(range(-n, n)):
+            out.append(("pop", aj, i))
+    for s in range(ctx.n(150, 2500)):
+        aj = image_structure(rng, rng.randint(2, ctx.n(6, 8)))
+        n = len(aj["atoms"])
+        if s % 4 == 0:
+            out.append(("pop", aj, rng.choice([None, rng.randint(-n, n - 1)])))
+            continue
+        idx = rng.sample(range(n), rng.randint(1, max(1, n - 1)))
+        if rng.random() < 0.25:
+            idx = respell(rng, idx, n)
+        out.append(("delete", aj, idx))
+    return out
+
+
+def run_image(ctx, oracle_only=False):
+    ops, impls = [], []
+    for kind, aj, arg in image_cases(ctx):
+        n = len(aj["atoms"])
+        if kind == "delete":
+            op = {"op": "delete_norm" if any(i < 0 for i in arg) else "delete", "a": aj, "idx": arg}
+            r = _delete(aj, arg)
+            dead = {i % n for i in arg}
+        else:
+            op = {"op": "pop", "a": aj, "i": -1 if arg is None else arg, "default": arg is None}
+            r = _pop(aj, arg)
+            dead = {(n - 1) if arg is None else arg % n}
+        bad = oracle_delete(aj, sorted(dead), r)
+        survivor = any(_repeats(t) and not (set(t["a"]) & dead) for k in gen.KINDS for t in aj["terms"][k])
+        touched = [bool(set(t["a"]) & dead) for k in gen.KINDS for t in aj["terms"][k]]
+        ctx.case(op, nontrivial=(any(touched) and not all(touched)))
+        ctx.count("image:" + kind)
+        if survivor:
+            ctx.count("image:survivor")
+        if bad:
+            ctx.fail("%s on %d atoms, terms through the cell boundary: %s" % (kind, n, bad), op, observed=r)
+        ops.append(op)
+        impls.append(_norm_err(r))
     if oracle_only:
         return
     models = ctx.lean.run(ops)
